@@ -352,6 +352,60 @@ def callsite_agreement_rule(ctx, rule, callers=None):
     return n
 
 
+IFCHAINS_REF = os.path.join(os.path.dirname(os.path.dirname(os.path.abspath(__file__))), 'ifchains.json')
+
+
+def if_chain_pairs(f):
+    """[(kind, test A, test B)]: kind 'sib' when `if A: ...` is directly followed by an independent `if B: ...`,
+    'elif' when B is the else-branch of A"""
+    out = []
+    for blk in _blocks_all(f.body):
+        for a, b in zip(blk, blk[1:]):
+            if isinstance(a, ast.If) and isinstance(b, ast.If):
+                out.append(['sib', norm(a.test), norm(b.test)])
+    for x in walk_no_nested(f):
+        if isinstance(x, ast.If) and len(x.orelse) == 1 and isinstance(x.orelse[0], ast.If):
+            out.append(['elif', norm(x.test), norm(x.orelse[0].test)])
+    return out
+
+
+def _blocks_all(stmts):
+    yield stmts
+    for st in stmts:
+        if isinstance(st, (ast.FunctionDef, ast.AsyncFunctionDef, ast.ClassDef)):
+            continue
+        for fld in ('body', 'orelse', 'finalbody'):
+            sub = getattr(st, fld, None)
+            if isinstance(sub, list) and sub:
+                yield from _blocks_all(sub)
+        for h in getattr(st, 'handlers', []) or []:
+            yield from _blocks_all(h.body)
+
+
+def if_chain_rule(ctx, rule, callers=None):
+    """two tests that are independent on the reference tree (both evaluated) must not become alternatives
+    (`elif`: the second is skipped whenever the first holds), and the reverse"""
+    if not os.path.exists(IFCHAINS_REF):
+        return 0
+    ref = json.load(open(IFCHAINS_REF))
+    n = 0
+    for m, q, f in ctx.repo.functions():
+        name = '%s.%s' % (m.name, q)
+        if name not in ref:
+            continue
+        if callers is not None and not any(name == c or name.startswith(c + '.') or c == m.name for c in callers):
+            continue
+        cur = {(a, b): k for k, a, b in if_chain_pairs(f)}
+        for kind, a, b in ref[name]:
+            now = cur.get((a, b))
+            if now is None:
+                continue          # one of the tests was rewritten or statements were inserted: not comparable
+            n += 1
+            ctx.ob(rule, '%s:`%s`-then-`%s`-still-%s' % (name, a[:40], b[:40], 'independent' if kind == 'sib' else 'alternatives'),
+                   now == kind, 'reference: %s; now: %s' % (kind, now), m.loc(f))
+    return n
+
+
 STATE_FLAGS = {
     ('cencoding._assemble_objects', 'have_null'): 'state of the list being assembled (does the current list hold a null), '
                                                   'deliberately re-evaluated per element; not a summary of the loop',
@@ -456,3 +510,4 @@ def general_rules(ctx, tag, callers):
     sibling_rule(ctx, tag + '.CS7', callers=callers)
     callsite_agreement_rule(ctx, tag + '.CS8', callers=callers)
     flag_accumulation_rule(ctx, tag + '.CS9', callers=callers)
+    if_chain_rule(ctx, tag + '.CS10', callers=callers)
